@@ -113,17 +113,8 @@ def run(ctx):
         pass
     def eof_guarded(fn, site, label, desc):
         b = F.body(fn)
-        ok = False
-        for (sw, yes, no) in b.control_deps(site):
-            pol = lib.eq_polarity(b, sw)
-            if pol:
-                eq_t, ne_t, ops = pol
-                sl = backward_slice(b, [op_place(o) for o in ops if op_place(o)])
-                aggs = [x for l in sl.locals for (b2, si, kind, x) in b.defs().get(l, []) if kind == 'assign' and x['r']['k'] == 'agg']
-                is_eof = any(x['r']['ak'] == 'Adt:std::io::ErrorKind::UnexpectedEof' for x in aggs) or any('UnexpectedEof' in str(c.get('un', '')) for c in sl.consts)
-                if eq_t in yes and ne_t in no and any(c.endswith('std::io::Error::kind') or c == 'std::io::Error::kind' for c in sl.calls):
-                    ok = True
-        ctx.ob(label, 'K3-guard', fn, desc, ok, '', b.loc(site))
+        kinds = lib.errkind_guarded(b, site)
+        ctx.ob(label, 'K3-guard', fn, desc, kinds == {'UnexpectedEof'}, 'guarded by error kinds: %s' % (sorted(kinds) or 'none'), b.loc(site))
     rn = ctx.body('log::Log::read_next')
     if rn:
         pushes = lib.field_effect_sites(rn, ['re:VecDeque.*::push_back$'], '.Log.cleanup_queue')
